@@ -169,7 +169,8 @@ def run_impl(prop, cases, jobs=None, per_case_timeout=5):
     jobs = max(1, min(jobs or NPROC, (len(cases) + 199) // 200))
     WORK.mkdir(exist_ok=True)
     tmp = Path(tempfile.mkdtemp(prefix="impl-", dir=WORK))
-    chunks = [cases[i::jobs] for i in range(jobs)]
+    per = (len(cases) + jobs - 1) // jobs
+    chunks = [cases[i * per:(i + 1) * per] for i in range(jobs)]     # contiguous: history effects stay inside one worker
     procs = []
     for k, ch in enumerate(chunks):
         inp = tmp / ("in%d.jsonl" % k)
@@ -193,7 +194,7 @@ def run_impl(prop, cases, jobs=None, per_case_timeout=5):
         while len(outs) < n:
             outs.append({"exc": "WORKER_DIED", "stderr": (err or "")[-300:]})
         for j, o in enumerate(outs[:n]):
-            results[k + j * jobs] = o
+            results[k * per + j] = o
     shutil.rmtree(tmp, ignore_errors=True)
     return results
 
@@ -242,7 +243,7 @@ def run_check(prop, tier, replay=None):
 
     if replay:
         r = json.load(open(replay))
-        cases = [r["input"]] if "input" in r else []
+        cases = (r.get("history") or []) + [r["input"]] if "input" in r else []
     else:
         cases = []
         corpus = VERIF / "corpus" / (prop + ".jsonl")
@@ -312,11 +313,24 @@ def run_check(prop, tier, replay=None):
         seen_kinds[kind] = seen_kinds.get(kind, 0) + 1
         if seen_kinds[kind] > 3:
             continue
-        if hasattr(mod, "shrink") and not replay:
-            c, ir, mr, verdict = shrink_case(prop, mod, c, ir, mr, verdict)
-        path = VERIF / "replays" / ("%s-%d-%d.json" % (prop, seed, k))
+        history = None
+        if not replay:
+            # does the case fail on its own?  If not, the failure depends on what the same
+            # process evaluated before it: keep the preceding cases as the replay history.
+            alone = run_impl(prop, [c], jobs=1, per_case_timeout=getattr(mod, "CASE_TIMEOUT", 5))
+            m_alone = mod.model_cases([c], alone, run_model) if hasattr(mod, "model_cases") else run_model([mod.model_line(c)])
+            if mod.judge(c, alone[0], m_alone[0]) is None:
+                idx = next((i for i, x in enumerate(cases) if x is c), None)
+                if idx is not None:
+                    history = cases[max(0, idx - 40):idx]
+            elif hasattr(mod, "shrink"):
+                c, ir, mr, verdict = shrink_case(prop, mod, c, ir, mr, verdict)
+        path = VERIF / "replays" / (("%s-replayed-%d.json" % (prop, k)) if replay else ("%s-%d-%d.json" % (prop, seed, k)))
+        if replay:
+            history = json.load(open(replay)).get("history")
         k += 1
-        json.dump({"property": prop, "stream": c.get("stream"), "seed": seed, "tier": tier, "input": c, "impl": ir, "model": mr,
+        json.dump({"property": prop, "stream": c.get("stream"), "seed": seed, "tier": tier, "input": c, "history": history,
+                   "history_dependent": history is not None, "impl": ir, "model": mr,
                    "judged_by": verdict.get("judged_by", "model = implementation on the observable the property fixes"),
                    "why": verdict.get("why"), "kind": kind,
                    "replay_cmd": "./check %s --replay %s" % (prop, path)}, open(path, "w"), indent=1)
